@@ -54,10 +54,13 @@ PROGRAMS = [
     ('very-deep-parentheses', 'p(%sa%s).\n' % ('(' * 600, ')' * 600), 'as-library'),
     # file names with characters that mean something to a shell or to glob(): the name is a name
     ('report[12]', 'bracketed(name).\n', 'ok'), ('report1', 'sibling(one).\n', 'ok'), ('what?', 'question(mark).\n', 'ok'), ('whatx', 'sibling(x).\n', 'ok'),
+    # ... or to a formatting operation (%, {}), to the environment ($, ~), to a shell (quote, blank, semicolon, backslash)
+    ('100%', 'percent(sign).\n', 'ok'), ('rate%done%s', 'percent(twice).\n', 'ok'), ('{0}{name}', 'braces(name).\n', 'ok'), ('$HOME', 'dollar(name).\n', 'ok'),
+    ('~', 'tilde(name).\n', 'ok'), ('back\\slash', 'backslash(name).\n', 'ok'), ("it's", 'quote(name).\n', 'ok'), ('two words;x', 'blank(name).\n', 'ok'),
     ('open-ended', 'wet(X) :- rain(X),\n', 'syntax'),
     ('multiline-clause', "longer(\n  'first\nsecond',\n  X\n) :-\n  true,\n  X = 'x'.\n", 'ok'),
 ]
-QUICK = ['facts', 'newlines', 'unicode', 'syntax-error', 'control', 'linebreaks', 'too-large', 'directives-discontiguous', 'control-characters', 'large-non-ascii', 'lexical-error', 'deep-parentheses', 'very-deep-parentheses', 'report[12]', 'what?']
+QUICK = ['facts', 'newlines', 'unicode', 'syntax-error', 'control', 'linebreaks', 'too-large', 'directives-discontiguous', 'control-characters', 'large-non-ascii', 'lexical-error', 'deep-parentheses', 'very-deep-parentheses', 'report[12]', 'what?', '100%', 'rate%done%s', '{0}{name}', '$HOME', '~', 'back\\slash', "it's", 'two words;x']
 FLAGS = ['-d', '--debug-parser', '--debug-generator', '--debug-filename']
 
 
